@@ -1377,7 +1377,7 @@ func ruleStateCensus(p *Program, r *Reporter) {
 		case *ssa.FieldAddr:
 			return fieldKey(x)
 		case *ssa.Global:
-			return "global " + shortPkg(x.Pkg.Pkg.Path()) + "." + x.Name()
+			return "global " + canonName(shortPkg(x.Pkg.Pkg.Path())+"."+x.Name())
 		}
 		return ""
 	}
